@@ -54,6 +54,12 @@ CHECKS = {
         note="Trusted: Lean kernel; harness; SQLite ORDER BY/LIMIT for the branch without post-processing (checked by the oracle only); sphgeom overlap for the boxes used.",
         design="DESIGN.md §5 C16",
     ),
+    "C18": dict(
+        technique="Lean 4 proof (string split/join lemmas, mutual induction over dict/list trees) for the configuration-key core + split/join correspondence with Config; model-free round-trip oracle for the value objects",
+        text="split_join_partial (every name names() builds splits back into its key tuple when no key ends in a backslash; the full statement is refuted by a kernel-checked witness), paths_find (every key tuple reported for a dict/list tree with distinct keys retrieves a value, any depth), dstype_name_roundtrip are proved in Lean 4; the Timespan and dimension-group cores are theorems of C11/C12. Config._splitIntoKeys / names() are compared with the model on generated awkward keys; dataset types, refs, data IDs (required/full/expanded), dimension records, groups and timespans are round-tripped through simple/JSON/pickle/YAML forms inside and outside a PersistenceContext with equality, hash and expansion-state checks.",
+        note="Partial: pydantic/json/pickle/PyYAML are trusted carriers validated by the round-trip oracle, not modelled; the nested record forms are decided by sampling. Four documented upstream limitations of the string key syntax are listed as known findings (C18-a..d).",
+        design="DESIGN.md §5 C18",
+    ),
 }
 
 NOT_YET = {}
